@@ -182,6 +182,8 @@ func GenImports(r *rng.R, cfg Cfg, skeletonLike bool) []Imp {
 		// bytes that mean something to a formatter, a shell or a glob but nothing to layercake
 		{"bind", cfg.Base + "/host/100%sure", "/mnt/50%"},
 		{"bind", cfg.Base + "/host/repos", "/mnt/p%2Fq[1]*"},
+		// a host directory BESIDE the layers directory whose path merely starts with the same bytes
+		{"bind", cfg.Layers + "-shared/distfiles", "/mnt/shared"},
 		// an import on the build root itself (its cleaned mountpoint is "/")
 		{"bind", "$$self/generated", "/"},
 	}
@@ -309,6 +311,9 @@ func GenWorld(r *rng.R, maxLayers int, healthy bool) WorldSpec {
 		ws.HostDirs = ws.HostDirs[:1]
 	}
 	ws.HostDirs = append(ws.HostDirs, cfg.Base+"/host/100%sure")
+	if r.Chance(1, 2) {
+		ws.HostDirs = append(ws.HostDirs, cfg.Layers+"-shared/distfiles")
+	}
 	return ws
 }
 
